@@ -61,7 +61,7 @@ class HandlerRun:
         ]
         self.ex.inline = self.inline_policy
         self.first_party = re.compile('^\\(?\\*?' + re.escape(KM) + '/')
-        self.extra_inline = re.compile(r'^\(net/url\.Values\)\.(Get|Has)$|^\(\*net/url\.URL\)\.(Hostname|Port)$|^net/url\.(splitHostPort|validOptionalPort)$')
+        self.extra_inline = re.compile(r'^\(net/url\.Values\)\.(Get|Has)$')
         self.no_inline = re.compile(r'NEVERMATCH')
 
     def inline_policy(self, name):
